@@ -88,6 +88,9 @@ func (g *Gen) weight(k Kind, depth int, hidden bool) int {
 	}
 	ki := &kinds[k]
 	w := ki.Weight
+	if w < 0 {
+		return 0
+	}
 	need := 1 + ki.NHid
 	if ki.Arity == Wrap {
 		need++
